@@ -55,6 +55,15 @@ let register (reg : ostring -> (ostring list -> ostring list) -> (ostring list -
   reg "crt" crt (equal_monitor crt);
   let crts a = List.map (fun id -> string_of_z (conn_event_id (bytes_of id))) a in
   reg "crts" crts (equal_monitor crts);
+  (* twowf: two workflows on shared in-memory adapters. What each does ALONE is what the engine theorems say of one workflow
+     (every run of a failing-then-succeeding linear program completes — C01; every entry into a hooked state has its hook run
+     to success — C14); sharing the adapters must not change it: all runs complete, all hooks succeed, for both *)
+  let twowf a = (match a with
+    | [runs; _sf; _hf; pause; timeout] ->
+      let p = if pause = "1" && timeout <> "1" then runs else "0" in
+      List.map (fun n -> Printf.sprintf "%s:%s/%s:%s:%s" n runs runs p runs) ["orders"; "payments"]
+    | _ -> failwith "twowf arity") in
+  reg "twowf" twowf (equal_monitor twowf);
   reg "ctl" ctl_model ctl_monitor;
   reg "webui" ctl_model ctl_monitor;
   (* routing grid *)
